@@ -187,7 +187,9 @@ def flagsets(arch, name):
     if arch == "ppc32b":
         base = {"CR0_LT": 0, "CR0_GT": 0, "CR0_EQ": 0, "CR0_SO": 0}
         out = []
-        if name == "ca":
+        if name == "all":
+            combos = [(k >> 2 & 1, k >> 1 & 1, k & 1) for k in range(8)]
+        elif name == "ca":
             combos = [(0, 0, 0), (1, 0, 0), (0, 0, 1), (1, 1, 1)]
         else:
             combos = [(0, 0, 0), (1, 1, 1)]
